@@ -237,6 +237,8 @@ INPUTS = {
     'excs': ('I', lambda: [3, ValueError('v'), 4, 5]),
     'keyerr': ('I', lambda: [2, KeyError('k'), 6]),
     'nested': ('L', lambda: [[0, 1], [2], [], [3, 4]]),
+    # None is an element like any other
+    'nones': ('I', lambda: [0, None, 2, None]),
     # opaque elements with an unusual but legal ==: no operator has any business comparing the elements it carries
     'opaque': ('I', lambda: [Vec([1, 2]), Arr([3, 4]), Vec([])]),
 }
